@@ -78,6 +78,12 @@ public:
                 first_channel_weights_.push_back(weight);
             }
         }
+        else
+        {
+            // the weights of the first iteration are not stored separately; restore them from the
+            // first result so that `rollback(0)` works on a checkpoint that was read from a stream
+            first_channel_weights_ = this->results().front().channel_weights();
+        }
     }
 
     /// Returns the channel weights for the next iteration.
